@@ -424,6 +424,40 @@ func Guard(f func() error) (err error) {
 	return f()
 }
 
+type keptBytes struct {
+	what string
+	live []byte
+	copy []byte
+}
+
+var (
+	keepMu   sync.Mutex
+	keepRing [64]keptBytes
+	keepPos  int
+)
+
+// KeepBytes remembers a byte slice returned by the library (and a private copy
+// of it) and verifies that none of the last 64 remembered slices has been
+// changed since: a returned buffer belongs to the caller, a later call must
+// not write into it (pooled or shared buffers handed out by mistake).
+func KeepBytes(what string, b []byte) error {
+	keepMu.Lock()
+	defer keepMu.Unlock()
+	for i := range keepRing {
+		k := &keepRing[i]
+		if k.live != nil && string(k.live) != string(k.copy) {
+			err := fmt.Errorf("a byte slice returned earlier by %s read %q when it was returned and reads %q now: a later call wrote into memory that had been handed to the caller", k.what, k.copy, k.live)
+			k.live = nil
+			return err
+		}
+	}
+	if len(b) > 0 {
+		keepRing[keepPos%len(keepRing)] = keptBytes{what: what, live: b, copy: append([]byte(nil), b...)}
+		keepPos++
+	}
+	return nil
+}
+
 // HangLimit is how long a single case may run before it is reported as a hang
 // (cases take micro- to milliseconds; concurrency cases a few seconds at most).
 var HangLimit = 120 * time.Second
